@@ -123,7 +123,25 @@ func (m *Machine) runnable() []*Thread {
 
 // pickNext chooses the thread to run next at a scheduling point. self may continue when
 // selfRunnable. The choice is a decision.
+func schedKind(what string) int {
+	switch {
+	case what == "exit":
+		return 2
+	case what == "vndYield" || strings.HasPrefix(what, "hook"):
+		return 0
+	}
+	return 1
+}
+
 func (m *Machine) pickNext(self *Thread, selfRunnable bool, what string) *Thread {
+	next := m.pickNext0(self, selfRunnable, what)
+	if next != nil {
+		m.schedTrace = append(m.schedTrace, [3]int{self.id, schedKind(what), next.id})
+	}
+	return next
+}
+
+func (m *Machine) pickNext0(self *Thread, selfRunnable bool, what string) *Thread {
 	var opts []*Thread
 	for _, t := range m.runnable() {
 		if t == self && !selfRunnable {
